@@ -43,7 +43,9 @@ META = dict(
                 thorough='same with type K inverse tolerance on all of [0,1372]'),
     outside=['float64 rounding of polynomial evaluation', 'NaN/inf inputs', 'the >= 1e5-point float grid of the quantifier'],
     stubs=['np.exp on a symbolic real: uninterpreted function (identity) / rational enclosure per sub-interval (type K)',
-           'NumPy object arrays carry z3 reals through np.piecewise and polyval (Python-level code)'],
+           'NumPy object arrays carry z3 reals through np.piecewise and polyval (Python-level code)',
+           'warm-up: concrete float32 and float64 calls over every piece precede each obligation (state carried by the module-level type '
+           'objects is part of the input)'],
     assumptions=['NIST ITS-90 tables as shipped in thermocouples_reference 0.20 (independent package)',
                  'inverse tolerance 0.1 deg C on the ITS-90 inverse ranges'],
     buckets=dict(all=['forward-identity', 'total', 'continuity', 'monotone', 'inverse', 'scaling-direction', 'elementwise']),
@@ -107,6 +109,18 @@ def tasks(tier, seed):
 def _tc(t):
     import nptdms.thermocouples as tc
     return getattr(tc, 'type_' + t.lower())
+
+
+def _warmup(tc, tab):
+    """The conversions must not depend on what was converted before (the type objects are module-level singletons):
+    every obligation is decided AFTER concrete calls with float32 and then float64 arrays reaching every piece of both
+    directions.  On a stateless implementation this changes nothing."""
+    pts = []
+    for (tmin, tmax, coefs, ec) in tab:
+        pts += [tmin + (tmax - tmin) * k / 4.0 for k in (1, 2, 3)]
+    for dt in (np.float32, np.float64):
+        mv = tc.celsius_to_mv(np.array(pts, dtype=dt))
+        tc.mv_to_celsius(np.asarray(mv, dtype=dt))
 
 
 def _poly(coefs_high_to_low, x):
@@ -370,8 +384,12 @@ def run_task(task):
                                  direction=task['direction']))
         ctx.note('scaling-direction')
 
-    fn = dict(forward=forward, total=total, continuity=continuity, monotone=monotone, inverse=inverse, scaling=scaling, invmono=invmono,
-              elementwise=elementwise)[kind]
+    fn0 = dict(forward=forward, total=total, continuity=continuity, monotone=monotone, inverse=inverse, scaling=scaling, invmono=invmono,
+               elementwise=elementwise)[kind]
+
+    def fn(ctx):
+        _warmup(tc, tab)
+        fn0(ctx)
     st = explore(fn, max_paths=2000, time_budget=1500)
     st.pop('wall_s', None)
     return st
@@ -412,6 +430,7 @@ def replay(art):
     tab = ref_table(t)
     what = art.get('what')
     kind = task['kind']
+    _warmup(tc, tab)
 
     def ref_fwd(T):
         for (tmin, tmax, coefs, ec) in tab:
